@@ -1,4 +1,5 @@
 import CppUModel.Spec.MockValue
+import CppUModel.Model.MockNamedValueList
 /-!
 Helper lemmas for C09: C integer conversions on `BitVec` expressed through `toInt` / `toNat`
 (so that `omega` can finish), without the SAT-based bit-vector tactic.
@@ -114,5 +115,92 @@ theorem obj_type_beq_false (ty : String) (a : Nat) (c : Option (Nat → Nat → 
   simp only [MVal.WF] at hw
   simp only [MVal.type_, beq_eq_false_iff_ne, ne_eq]
   intro e; subst e; exact hw hs
+
+/-! ## rendering -/
+
+theorem binaryLoop_ne_nil (x : UInt8) (xs : Bytes) (n : Nat) : binaryLoop (x :: xs) (n + 1) ≠ [] := by
+  simp [binaryLoop, hex2U]
+
+/-- the loop-and-trim of `StringFromBinary` is the blank-separated list of `%02X` renderings -/
+theorem stringFromBinary_eq : ∀ (b : Bytes) (n : Nat), n ≤ b.length →
+    StringFromBinary b n = List.intercalate [32] ((b.take n).map hex2U)
+  | _, 0, _ => by simp [StringFromBinary, binaryLoop]
+  | [], n + 1, h => by simp at h
+  | [x], 1, _ => by simp [StringFromBinary, binaryLoop, hex2U, List.intercalate]
+  | [x], n + 2, h => by simp at h
+  | x :: y :: ys, n + 1, h => by
+    cases n with
+    | zero => simp [StringFromBinary, binaryLoop, hex2U, List.intercalate]
+    | succ m =>
+      have ih := stringFromBinary_eq (y :: ys) (m + 1) (by simp at h ⊢; omega)
+      unfold StringFromBinary at ih ⊢
+      have hne := binaryLoop_ne_nil y ys m
+      rw [show binaryLoop (x :: y :: ys) (m + 1 + 1) = (hex2U x ++ [32]) ++ binaryLoop (y :: ys) (m + 1) by simp [binaryLoop]]
+      rw [List.dropLast_append_of_ne_nil hne, ih]
+      simp [List.intercalate, List.take]
+
+/-- the bit pattern of a signed value is the value modulo 2^width -/
+theorem toNat_eq_toInt_emod32 (x : BitVec 32) : x.toNat = (x.toInt % 4294967296).toNat := by
+  have := toInt_cases32 x; omega
+theorem toNat_eq_toInt_emod64 (x : BitVec 64) : x.toNat = (x.toInt % 18446744073709551616).toNat := by
+  have := toInt_cases64 x; omega
+
+theorem decInt_ofNat (n : Nat) : decInt (n : Int) = decNat n := by
+  have h : ¬ ((n : Int) < 0) := by omega
+  simp [decInt, h]
+
+/-! ## list and repository -/
+
+theorem nlist_add_eq_append {α} : ∀ (l : NList α) (x : Bytes × α), l.add x = l ++ [x]
+  | [], _ => rfl
+  | h :: t, x => by simp [NList.add, nlist_add_eq_append t x]
+
+theorem nlist_get_append {α} : ∀ (l1 l2 : NList α) (name : Bytes),
+    (l1 ++ l2).getValueByName name =
+      match l1.getValueByName name with
+      | some a => some a
+      | none => l2.getValueByName name
+  | [], _, _ => by simp [NList.getValueByName]
+  | (n, a) :: t, l2, name => by
+    simp only [List.cons_append, NList.getValueByName]
+    split
+    · rfl
+    · exact nlist_get_append t l2 name
+
+theorem repo_installAll_eq : ∀ (r other : Repo), r.installAll other = other.reverse ++ r
+  | _, [] => by simp [Repo.installAll]
+  | r, n :: rest => by simp [Repo.installAll, repo_installAll_eq (n :: r) rest]
+
+theorem repo_getComparator_append : ∀ (r1 r2 : Repo) (name : String),
+    Repo.getComparatorForType (r1 ++ r2) name =
+      match Repo.getComparatorForType r1 name with
+      | some c => some c
+      | none => Repo.getComparatorForType r2 name
+  | [], _, _ => by simp [Repo.getComparatorForType]
+  | n :: t, r2, name => by
+    simp only [List.cons_append, Repo.getComparatorForType]
+    split
+    · rename_i h
+      simp only [Bool.and_eq_true] at h
+      cases hc : n.comparator with
+      | none => simp [hc] at h
+      | some c => rfl
+    · exact repo_getComparator_append t r2 name
+
+theorem repo_getCopier_append : ∀ (r1 r2 : Repo) (name : String),
+    Repo.getCopierForType (r1 ++ r2) name =
+      match Repo.getCopierForType r1 name with
+      | some c => some c
+      | none => Repo.getCopierForType r2 name
+  | [], _, _ => by simp [Repo.getCopierForType]
+  | n :: t, r2, name => by
+    simp only [List.cons_append, Repo.getCopierForType]
+    split
+    · rename_i h
+      simp only [Bool.and_eq_true] at h
+      cases hc : n.copier with
+      | none => simp [hc] at h
+      | some c => rfl
+    · exact repo_getCopier_append t r2 name
 
 end Mock
